@@ -16,7 +16,9 @@ import (
 
 	"github.com/buchgr/bazel-remote/v2/cache"
 	"github.com/buchgr/bazel-remote/v2/cache/disk"
+	pb "github.com/buchgr/bazel-remote/v2/genproto/build/bazel/remote/execution/v2"
 	bspb "google.golang.org/genproto/googleapis/bytestream"
+	"google.golang.org/protobuf/proto"
 )
 
 // C08 — kill at any point and restart. A process kill leaves exactly the
@@ -53,6 +55,8 @@ type c08Case struct {
 	oldValue []byte               // previous acknowledged value of the in-flight key (overwrite), nil if none
 	images   []c08Image
 	log      []string
+	hc       *lib.HookCtl
+	imgNo    int
 }
 
 func (c *c08Case) detail(img *c08Image, extra any) map[string]any {
@@ -208,6 +212,48 @@ func (c *c08Case) judgeImage(img *c08Image, bigMax bool) {
 		}
 		return false
 	}
+	// (0) on some images: the interrupted upload is repeated by one client while another client is just reading the
+	// torn entry (held at the point where it is about to drop it): the repeated, acknowledged upload must survive.
+	if c.hc != nil && c.inflight.kind == cache.CAS && c.op != "bad-upload" && c.imgNo%3 == 0 {
+		g := c.hc.Gate("get.beforeFailedRemove", inKey, 1)
+		done := make(chan struct{})
+		go func() {
+			defer close(done)
+			_, _, _ = read(c.inflight.kind, c.inflight.hash, int64(len(c.inflight.value)), false)
+		}()
+		if g.WaitArrived(300 * time.Millisecond) {
+			perr := cch.Put(ctx, c.inflight.kind, c.inflight.hash, int64(len(c.inflight.value)), bytes.NewReader(c.inflight.value))
+			g.Release()
+			<-done
+			r.Count("concurrent-repeat.reached")
+			if perr == nil {
+				if b, hit, err := read(c.inflight.kind, c.inflight.hash, -1, false); !hit || err != nil || !bytes.Equal(b, c.inflight.value) {
+					r.Violation(keyBase+":repeat-lost-to-concurrent-reader", fmt.Sprintf("the interrupted upload was repeated and acknowledged while another client was reading the torn entry; afterwards it is gone (hit=%v err=%v)", hit, err), c.detail(img, nil))
+				}
+			}
+		} else {
+			g.Release()
+			<-done
+		}
+		c.hc.Ungate("get.beforeFailedRemove", inKey)
+	}
+	if c.inflight.kind == cache.AC {
+		// validated lookup (gRPC GetActionResult / HTTP GET+HEAD of /ac): a hit must be one completed upload
+		res, _, verr := cch.GetValidatedActionResult(ctx, c.inflight.hash)
+		r.Count("inflight.validated-ac." + map[bool]string{true: "hit", false: "absent"}[res != nil])
+		if verr == nil && res != nil {
+			ok := false
+			for _, v := range okValues {
+				want := &pb.ActionResult{}
+				if proto.Unmarshal(v, want) == nil && proto.Equal(res, want) {
+					ok = true
+				}
+			}
+			if !ok {
+				r.Violation(keyBase+":served-torn:validated-ac", "after restart the validated action-cache lookup answered a hit with a message that no completed upload stored (interrupted upload)", c.detail(img, map[string]any{"returned": res.String()}))
+			}
+		}
+	}
 	present, _ := cch.Contains(ctx, c.inflight.kind, c.inflight.hash, -1)
 	type rd struct {
 		name string
@@ -332,6 +378,8 @@ func (c *c08Case) run(pool *lib.DirPool, hc *lib.HookCtl) {
 		old := &c08Entry{kind: in.kind, hash: in.hash, value: lib.GenBlob(rng, []int{200, 40000, 150000}[rng.IntN(3)], "text", c.id+"-old")}
 		if in.kind == cache.CAS {
 			old.value = in.value // same digest, same content
+		} else if in.kind == cache.AC {
+			old.value, _ = proto.Marshal(&pb.ActionResult{ExitCode: 77, StderrRaw: old.value, ExecutionMetadata: &pb.ExecutedActionMetadata{Worker: c.id + "-old"}})
 		}
 		put(old)
 		c.oldValue = old.value
@@ -408,8 +456,10 @@ func (c *c08Case) run(pool *lib.DirPool, hc *lib.HookCtl) {
 	hc.UngateAll()
 	lib.WaitEvictionsDrained(live, 5*time.Second)
 
+	c.hc = hc
 	for i := range c.images {
 		img := &c.images[i]
+		c.imgNo = i
 		c.judgeImage(img, i%4 != 3)
 		pool.Put(img.dir)
 	}
@@ -577,6 +627,10 @@ func runC08(r *lib.Run) {
 		h := lib.Sha256Hex(v)
 		if kind != cache.CAS {
 			h = lib.RandHash(rng)
+		}
+		if kind == cache.AC {
+			// a valid ActionResult of about that size (no referenced blobs), so that the validated lookup path is judged too
+			v, _ = proto.Marshal(&pb.ActionResult{ExitCode: int32(i), StdoutRaw: v, ExecutionMetadata: &pb.ExecutedActionMetadata{Worker: c.id}})
 		}
 		c.inflight = &c08Entry{kind: kind, hash: h, value: v}
 		c.run(pool, hc)
